@@ -73,14 +73,15 @@ Theorem C14_errors :
 Proof. exact genapi_error_cases. Qed.
 Print Assumptions C14_errors.
 
-(* Any device whatsoever (lying, hostile, any state of the handle): if DeviceControl::read never
-   panics (C07), genapi panics only when some register read returned a value >= 2^63 — the
-   `vec![0; file_size]` capacity overflow of the known finding; in particular the corrupt-archive
-   path is an error, not a panic. *)
+(* Any device whatsoever (lying, hostile, any plans, any state of the handle whose negotiated
+   maximum acknowledge length is a machine integer): no hypothesis about DeviceControl::read is left
+   (its totality is P_C07.ctl_read_total).  genapi panics only when some register read returned a
+   value >= 2^63 — the `vec![0; file_size]` capacity overflow of the known finding; in particular a
+   corrupt archive, an invalid enumerant, a hostile entry count or address is an error, not a panic. *)
 Theorem C14_no_panic :
-  forall sha1 unzip,
-  (forall a n s, fst (ctl_read a n s) <> Panic) ->
-  forall xs, fst (genapi sha1 unzip xs) = Panic ->
+  forall sha1 unzip (xs : xst),
+  c_max_ack (fst (snd xs)) - 12 < 2 ^ 64 ->
+  fst (genapi sha1 unzip xs) = Panic ->
   exists v, (exists a n s0 s1, read_reg a n s0 = (Ok v, s1)) /\ 2 ^ 63 <= v.
 Proof. exact genapi_no_panic. Qed.
 Print Assumptions C14_no_panic.
